@@ -30,7 +30,10 @@ def gen_params(rng, idx):
         # empty old file (header in the appended bytes), multi-criterion, multi-iteration
         {'benchmarks': ['B', 'C'], 'old': [], 'invocations': 2, 'iterations': 2, 'crits': 1},
         # old file holds run B completely; B's data is reloaded, C and D are new (metadata records appended)
-        {'benchmarks': ['B', 'C', 'D'], 'old': ['B'], 'invocations': 3, 'iterations': 1, 'crits': 2},
+        # (names with braces; the later sessions run in debug mode, where the loader reports the damaged
+        # lines it tolerates - their text goes through str.format)
+        {'benchmarks': ['B', 'C{1}', 'D{x}'], 'old': ['B'], 'invocations': 3, 'iterations': 1, 'crits': 2,
+         'debug': True},
         # three data points per invocation, no extra criteria
         # (non-ASCII benchmark names: they are written as they are into the measurement lines and the
         # `#!` line, so a cut can fall between the bytes of a character)
@@ -41,20 +44,26 @@ def gen_params(rng, idx):
     # non-ASCII text (descriptions, an env value) in fields that are recorded in the JSON metadata:
     # the appended bytes stay ASCII only because the records are written with ensure_ascii
     fixed[0]['unicode'] = True
+    # the command line of the later sessions ends in `=7`: a metadata record torn behind its prefix and
+    # glued to that `#!` line has the JSON payload `7`
+    fixed[0]['argv_tail'] = ['--build-log=7']
     fixed[1]['unicode'] = True
     if idx < len(fixed):
         return fixed[idx]
     nb = rng.randint(1, 3)
-    names = rng.sample(['B', 'C', 'D', 'Fib', 'N1', u'G\u00fc', u'\u03a9m'], nb)
+    names = rng.sample(['B', 'C', 'D', 'Fib', 'N1', u'G\u00fc', u'\u03a9m', 'K{0}', 'L}{'], nb)
     old = [b for b in names if rng.random() < 0.4]
     if len(old) == len(names):
         old = old[:-1]
     uni = rng.random() < 0.5
+    extra = {'debug': rng.random() < 0.4,
+             'argv_tail': rng.choice([None, None, ['--build-log=7'], ['--build-log=true'], ['--build-log="x"'],
+                                       ['--build-log={}'], ['--build-log=[]']])}
     if rng.random() < 0.25:
         return {'benchmarks': names, 'old': old, 'invocations': rng.randint(1, 3), 'iterations': 1, 'crits': 0,
-                'profile': True, 'unicode': uni}
+                'profile': True, 'unicode': uni, **extra}
     return {'benchmarks': names, 'old': old, 'invocations': rng.randint(1, 3),
-            'iterations': rng.randint(1, 3), 'crits': rng.randint(0, 2), 'unicode': uni}
+            'iterations': rng.randint(1, 3), 'crits': rng.randint(0, 2), 'unicode': uni, **extra}
 
 
 class Base(object):
@@ -214,8 +223,9 @@ def eval_cut(base, k):
         before = scn.read() or ''
         loads = []
         n0 = len(scn.starts)
+        opts = (['-d'] if base.params.get('debug') else []) + (['-E'] if name == 'E' else [])
         with dd.observe_loads(loads):
-            r = scn.run(['-E'] if name == 'E' else [])
+            r = scn.run(opts, filters=base.params.get('argv_tail') or [])
         sessions.append({'name': name, 'before': before, 'status': r.status(),
                          'crash': list(r.crash) if r.crash else None,
                          'stderr': r.stderr[-400:] if (r.crash or r.exit in (3, 4)) else '',
@@ -350,9 +360,16 @@ def judge_cut(acc, base, obs, answers, writer=(None, None)):
         model_recs, impl, rendered, real_text = w
         impl_recs = list(impl['recs'])
         acc.count('renderer-compared')
-        if not (rendered['rend_ok'] and rendered['dps_ok'] and rendered['cmd_ok']):
+        # the side conditions of the byte-prefix theorem, evaluated by the model on this very session.
+        # `cmdOk` (the command line does not end like a JSON value) is a condition on the generated input:
+        # command lines ending in } ] " are generated on purpose and only counted
+        cmd = real_text.split('\n')[0][2:]
+        cmd_expected = not cmd.endswith(('}', ']', '"')) and '\t' not in cmd
+        if not rendered['cmd_ok']:
+            acc.count('session-outside-side-condition-cmdOk')
+        if not (rendered['rend_ok'] and rendered['dps_ok']) or rendered['cmd_ok'] != cmd_expected:
             acc.disagree('c09.render: the side conditions of the byte-prefix theorem do not hold for this session',
-                         inp, {'cmd': real_text.split('\n')[0]},
+                         inp, {'cmd': real_text.split('\n')[0], 'cmd_ok_expected': cmd_expected},
                          {k: rendered[k] for k in ('rend_ok', 'dps_ok', 'cmd_ok')},
                          ['RB.Loader.c09_load_after_any_byte_prefix_rendered'])
         if rendered['text'] != real_text:
@@ -570,7 +587,7 @@ def run(ck):
             params = gen_params(ck.rng, i)
             rng = ck.rng
             acc, base = process(params, os.path.join(ck.scratch, 's%d' % i),
-                                lambda base: cut_points(base, rng, 'quick', 22 if i == 0 else 21), ck.model)
+                                lambda base: cut_points(base, rng, 'quick', 12), ck.model)
             acc.merge_into(ck)
             ck.count('scenario')
             ck.count('appended-bytes', len(base.appended))
